@@ -101,6 +101,115 @@ def mk_simpledate(prop):
     return h
 
 
+# E-DATETIME (assumed library contract, probed by bounded_codec.timestamp_*): a datetime is an instant, an integer number of microseconds since
+# 1970-01-01T00:00 UTC, between year 1 and year 9999; calendar.timegm(dt.utctimetuple()) is floor(us / 10^6), dt.microsecond is us mod 10^6;
+# timedelta(milliseconds=k) is exactly 1000*k microseconds for an integer k and datetime + timedelta adds them or raises OverflowError out of range.
+DT_MIN_US = -62135596800 * 10 ** 6
+DT_MAX_US = 253402300799 * 10 ** 6 + 999999
+
+
+class _Instant(object):
+    """ghost datetime: `us` microseconds since the epoch (symbolic)"""
+
+    def __init__(self, vc, us, aware):
+        self._vc, self.us = vc, us
+        secs, micro = vc.ctx.fresh_int('whole_seconds'), vc.ctx.fresh_int('microsecond')
+        vc.ctx.assume(sym.and_(micro >= 0, micro < 10 ** 6, secs * 10 ** 6 + micro == us).t, silent=True)
+        self._secs, self.microsecond = secs, micro
+
+    def utctimetuple(self):
+        return ('UTC-TIMETUPLE', self)
+
+
+def _stub_datetime(vc):
+    import calendar
+    import datetime
+    from cassandra import util
+
+    def timegm(tt):
+        if isinstance(tt, tuple) and tt and tt[0] == 'UTC-TIMETUPLE':
+            return tt[1]._secs
+        if isinstance(tt, tuple) and tt and tt[0] == 'DATE-TIMETUPLE':
+            return tt[1] * 86400
+        raise AssertionError('calendar.timegm on %r' % (tt,))
+    vc.stub(calendar.timegm, timegm)
+
+    class _Delta(object):
+        def __init__(self, us):
+            self.us = us
+
+        def __radd__(self, other):
+            if other is not util.UTC_DATETIME_EPOC:
+                raise AssertionError('timedelta added to %r' % (other,))
+            if vc.ctx.branch(sym.and_(self.us >= DT_MIN_US, self.us <= DT_MAX_US).t):
+                return _Instant(vc, self.us, False)
+            raise PyExc(SObj(OverflowError, {'args': ('date value out of range',)}))
+
+    def timedelta(*a, **kw):
+        if a or set(kw) - {'milliseconds', 'microseconds', 'seconds', 'days'}:
+            raise AssertionError('timedelta(%r, %r)' % (a, kw))
+        return _Delta(kw.get('days', 0) * 86400 * 10 ** 6 + kw.get('seconds', 0) * 10 ** 6 + kw.get('milliseconds', 0) * 1000 + kw.get('microseconds', 0))
+    vc.stub(datetime.timedelta, timedelta)
+
+
+def mk_timestamp(prop):
+    @harness(prop, 'DateType', functions=[CT + 'DateType.serialize', CT + 'DateType.deserialize', 'cassandra.util.utc_datetime_from_ms_timestamp'],
+             native='contracts.native.codec:replay')
+    def h(vc):
+        """requires E-DATETIME (a datetime is an integer count of microseconds since the epoch within years 1..9999; a date a day count; timegm / timedelta are
+        exact); ensures serialize(datetime) == int64(whole milliseconds of the instant, sub-millisecond digits dropped toward zero - never the next millisecond),
+        serialize(date) == int64(days * 86400000), serialize(int) == int64(v) and raises out of the int64 range; deserialize(int64 ms) is the instant
+        ms * 1000 microseconds (OverflowError outside datetime's range) and serialize(deserialize(b)) == b"""
+        from pyvc.interp import PyExc as _PyExc
+        _stub_datetime(vc)
+        pv = pv_any(vc)
+        form = vc.choice('value_is', ['datetime', 'date', 'integer', 'encoded'])
+        if form == 'datetime':
+            us = vc.int('microseconds_since_epoch')
+            vc.assume(sym.and_(us >= DT_MIN_US, us <= DT_MAX_US))
+            kind, b = vc.call_catch(CT + 'DateType.serialize', _Instant(vc, us, False), pv)
+            vc.check('datetime/accepted', kind == 'ok')
+            if kind != 'ok':
+                return
+            ms = vc.int('expected_milliseconds')
+            # truncation toward zero, stated without division: 1000*ms is the multiple of 1000 nearest to us on the zero side
+            vc.assume(sym.or_(sym.and_(us >= 0, ms * 1000 <= us, us < ms * 1000 + 1000), sym.and_(us < 0, ms * 1000 >= us, us > ms * 1000 - 1000)))
+            vc.check('datetime/whole-milliseconds-of-the-instant', b == cser.be_signed(ms, 8))
+        elif form == 'date':
+            days = vc.int('days_since_epoch')
+            vc.assume(sym.and_(days >= -719162, days <= 2932896))
+
+            class _D(object):
+                def timetuple(self):
+                    return ('DATE-TIMETUPLE', days)
+            kind, b = vc.call_catch(CT + 'DateType.serialize', _D(), pv)
+            vc.check('date/accepted', kind == 'ok')
+            if kind == 'ok':
+                vc.check('date/midnight-utc-in-milliseconds', b == cser.be_signed(days * 86400000, 8))
+        elif form == 'integer':
+            v = vc.int('value')
+            kind, b = vc.call_catch(CT + 'DateType.serialize', v, pv)
+            inr = cser.in_signed_range(v, 8)
+            if kind == 'exc':
+                vc.check('integer/raises-only-out-of-range', sym.and_(vc.exc_is(b, struct.error), sym.not_(inr)))
+            else:
+                vc.check('integer/in-range-only', inr)
+                vc.check('integer/byte-exact', b == cser.be_signed(v, 8))
+        else:
+            ms = vc.int('milliseconds')
+            vc.assume(cser.in_signed_range(ms, 8))
+            kind, dt = vc.call_catch(CT + 'DateType.deserialize', cser.be_signed(ms, 8), pv)
+            inr = sym.and_(ms * 1000 >= DT_MIN_US, ms * 1000 <= DT_MAX_US)
+            if kind == 'exc':
+                vc.check('decode/raises-only-outside-datetime-range', sym.and_(vc.exc_is(dt, OverflowError), sym.not_(inr)))
+                return
+            vc.check('decode/is-the-instant', isinstance(dt, _Instant) and sym.and_(inr, dt.us == ms * 1000))
+            if isinstance(dt, _Instant):
+                kind, b = vc.call_catch(CT + 'DateType.serialize', dt, pv)
+                vc.check('roundtrip/encodes-back-to-the-same-bytes', kind == 'ok' and b == cser.be_signed(ms, 8))
+    return h
+
+
 def _time_obj(vc, ns):
     from cassandra import util
     return vc.obj(util.Time, nanosecond_time=ns)
